@@ -1,3 +1,5 @@
+import SlipVerif.Model.ListHeap
 import SlipVerif.Model.Num
+import SlipVerif.Driver.ListHeap
 import SlipVerif.Driver.Num
 import SlipVerif.Driver.Util
